@@ -286,6 +286,8 @@ rnode* gen_tree(struct vh_rng* r, const struct gen_cfg* cfg);
 /* systematic trees: index -> tree, returns NULL past the end */
 rnode* gen_systematic(uint64_t idx);
 uint64_t gen_systematic_count(void);
+uint64_t gen_bigleaf_count(void); /* big single leaves (128 KiB..16 MiB strings, 10 000..400 000 members), outside the systematic index space */
+rnode* gen_bigleaf(uint64_t i);
 uint64_t gen_dict_count(void); /* the last gen_dict_count() indices are the dictionary of well-known encodings */
 /* neighbours of an encoding x (needs its head boundaries): calls cb for each */
 typedef void (*gen_bytes_cb)(const uint8_t* p, size_t n, void* ud);
